@@ -20,6 +20,7 @@ import itertools, math, warnings
 import numpy as np
 from .. import common
 from ..common import enc, ask, call
+from ..translator import py2lean
 
 LEVEL = "proof"
 RULE = ("pairs of connected simple graphs from one PRNG: paths, cycles, stars, cliques, complete bipartite, grids, "
@@ -565,7 +566,18 @@ def found_any(ctx):
     return any(f for _, f in ctx.violations) or len(ctx.violations) > 40
 
 
+# source translator (DESIGN.md 3.2): the mGH functions are re-translated from the source text on every run (key "mgh")
+TRUSTED = list(TRUSTED) + [py2lean.trusted_note("mgh")]
+PROP_FILES = ["PersimVerif/Props/C05.lean"] + py2lean.prop_files("mgh")
+
+
+def pre_build(ctx):
+    """source translator: regenerate Generated/SrcMGH.lean from PERSIM_ROOT's source"""
+    py2lean.pre_build(ctx, ("mgh",))
+
+
 def run(ctx):
+    py2lean.report_broken(ctx, PROP_FILES)
     g = G()
     ctx.extra["source_digest"] = common.source_digest(SRC, ANCHORED)
     nmax = ctx.n(9, 40)
@@ -1286,3 +1298,4 @@ MANIFEST = {
     "technique": "Lean 4 theorems over a hand-written model with the RNG as an explicit input + differential correspondence "
                  "with recorded np.random draws + exhaustive oracle for small graphs",
 }
+MANIFEST["note"] += " " + py2lean.manifest_note("mgh")
